@@ -49,15 +49,18 @@ impl Property for C19 {
     }
     fn cases(&self, tier: Tier) -> u64 {
         match tier {
-            Tier::Quick => 1_500_000,
-            Tier::Thorough => 60_000_000,
+            Tier::Quick => 6_000_000,
+            Tier::Thorough => 300_000_000,
         }
     }
     fn claims_termination(&self) -> bool {
         true
     }
+    fn case_from_raw(&mut self, raw: &[u8]) -> Option<NCase> {
+        Some(self.decode(&vec![tape_from_bytes(raw)]))
+    }
     fn setup(&mut self) {
-        let eng = unsafe { Engine::new() };
+        let eng = Engine::new_emu_only();
         let all: Vec<usize> = (0..eng.forms.len()).collect();
         let mut o = GenOpts::faulty(all);
         o.mutate16 = 0;
@@ -240,6 +243,18 @@ impl Property for C19 {
             "a hang is a case that exceeds the 10 s watchdog and again 60 s when re-run alone".into(),
         ]
     }
+}
+
+/// Byte string -> choice tape (little-endian words, zero padded to the tape length): lets a
+/// coverage-guided byte-level fuzzer drive the same structured generator and oracle.
+pub fn tape_from_bytes(raw: &[u8]) -> Vec<u64> {
+    let mut t: Vec<u64> = raw.chunks(8).map(|c| {
+        let mut b = [0u8; 8];
+        b[..c.len()].copy_from_slice(c);
+        u64::from_le_bytes(b)
+    }).collect();
+    t.resize(128, 0);
+    t
 }
 
 fn blank() -> NCase {
